@@ -66,6 +66,8 @@ type Frame struct {
 	callStack []string
 	lastRet  ssa.Instruction
 	outerN   *Value // $n of the loop around the call site this frame was inlined at
+	parent   *Frame          // the frame this one was inlined into
+	site     ssa.Instruction // the call in parent it was inlined at
 }
 
 func (f *Frame) clone() *Frame {
@@ -122,6 +124,7 @@ type Exec struct {
 	aliasCache  map[*ssa.Function]map[string][]string
 	topFr       *Frame
 	pendingN    *Value
+	pendingSite ssa.Instruction
 	bounded     map[string]int // loops verified by bounded unrolling: "fn loop N" -> bound
 	rebound     map[string]map[string][]string
 }
